@@ -246,8 +246,13 @@ class QuicLoggerTrace:
         }
 
     def _encode_http3_headers(self, headers: Headers) -> list[dict]:
+        # header values are arbitrary bytes, not necessarily UTF-8
         return [
-            {"name": h[0].decode("utf8"), "value": h[1].decode("utf8")} for h in headers
+            {
+                "name": h[0].decode("utf8", "backslashreplace"),
+                "value": h[1].decode("utf8", "backslashreplace"),
+            }
+            for h in headers
         ]
 
     # CORE
